@@ -304,10 +304,20 @@ struct CircuitEval {
     outs: Vec<ExtensionTarget<D>>,
 }
 
-fn build_circuit_eval(gate: &GateRef<F, D>) -> Result<CircuitEval, String> {
+/// Configurations under which the in-circuit evaluators are instantiated: several gates emit
+/// different sub-circuits depending on what the surrounding configuration can host (e.g. the
+/// Poseidon gate uses the MDS gate only when enough routed wires are available).
+fn circuit_eval_configs() -> Vec<(&'static str, CircuitConfig)> {
+    let std = CircuitConfig::standard_recursion_config();
+    let narrow = CircuitConfig { num_routed_wires: 37, ..CircuitConfig::standard_recursion_config() };
+    let wide = CircuitConfig { num_wires: 234, num_routed_wires: 120, ..CircuitConfig::standard_recursion_config() };
+    vec![("standard", std), ("narrow_37_routed", narrow), ("wide_120_routed", wide)]
+}
+
+fn build_circuit_eval(gate: &GateRef<F, D>, config: CircuitConfig) -> Result<CircuitEval, String> {
     let g = gate.clone();
     catch(move || {
-        let mut b = CircuitBuilder::<F, D>::new(CircuitConfig::standard_recursion_config());
+        let mut b = CircuitBuilder::<F, D>::new(config);
         let wires = b.add_virtual_extension_targets(g.0.num_wires());
         let consts = b.add_virtual_extension_targets(g.0.num_constants());
         let pih = b.add_virtual_hash();
@@ -458,7 +468,9 @@ fn run_case(seed: u64, idx: u64, gcse: &GateCase, quick: bool) -> Acc {
     if Run::is_sub() {
         return acc;
     }
-    match build_circuit_eval(gate) {
+    for (cfg_name, cfg) in circuit_eval_configs() {
+    let ctx = json!({"gate_ctx": ctx, "evaluator_circuit_config": cfg_name});
+    match build_circuit_eval(gate, cfg) {
         Ok(ce) => {
             if ce.outs.len() != gate.0.num_constraints() {
                 acc.fails.push((format!("{fam}.circuit_constraint_count_differs_from_declared"), json!({"ctx": ctx, "circuit": ce.outs.len()})));
@@ -479,7 +491,7 @@ fn run_case(seed: u64, idx: u64, gcse: &GateCase, quick: bool) -> Acc {
                 }
                 pw.set_hash_target(ce.pih, pih).unwrap();
                 acc.evals += 1;
-                acc.c(&format!("{fam}.circuit_vs_extension_points"), 1);
+                acc.c(&format!("{fam}.circuit_vs_extension_points.{cfg_name}"), 1);
                 match catch(|| generate_partial_witness(pw, &ce.data.prover_only, &ce.data.common)) {
                     Ok(Ok(w)) => {
                         for (k, t) in ce.outs.iter().enumerate() {
@@ -496,6 +508,7 @@ fn run_case(seed: u64, idx: u64, gcse: &GateCase, quick: bool) -> Acc {
             }
         }
         Err(e) => acc.fails.push((format!("{fam}.circuit_evaluator_not_buildable"), json!({"ctx": ctx, "err": e}))),
+    }
     }
     // ---- 5: degree along random lines (finite differences) -------------------------------------
     let deg = gate.0.degree();
